@@ -56,7 +56,10 @@ pub(crate) fn parse_comment<'s, 'i>(
     state: &'s RefCell<ParseState>,
 ) -> impl ModalParser<Input<'i>, (), ContextError> + 's {
     move |i: &mut Input<'i>| {
-        (comment, line_ending)
+        (
+            comment,
+            line_ending.context(StrContext::Expected(StrContextValue::CharLiteral('\n'))),
+        )
             .span()
             .map(|span| {
                 state.borrow_mut().on_comment(span);
